@@ -18,9 +18,14 @@ for d in sorted(glob.glob('/verif/seeded/*/')):
         obl=', '.join(sorted(set(o))[:3])
     except Exception:
         pass
-    caught=re.search(r'caught_by=\[(.*?)\]', res)
-    rows.append((sid, meta.get('property',''), (meta.get('what_it_breaks','') or '')[:110].replace('\n',' '), caught.group(1) if caught else '?', obl))
+    cm=re.findall(r'caught_by=\[(.*?)\]', res)
+    c=(cm[-1] if cm else '?')
+    if 'patch-does-not-apply' in res:
+        c=(c or '**missed**')+' (earlier tree; patch no longer applies)'
+    if not obl:
+        obl=', '.join((meta.get('confirmed_by_main') or {}).get('failing_obligations',[])[:3])
+    rows.append((sid, meta.get('property',''), (meta.get('what_it_breaks','') or '')[:110].replace('\n',' '), c, obl))
 print('| seed | property | what it breaks | caught by | failing obligation(s) |')
 print('|---|---|---|---|---|')
 for r in rows:
-    print('| %s | %s | %s | %s | %s |' % (r[0], r[1], r[2], r[3] or '**missed**', r[4]))
+    print('| %s | %s | %s | %s | %s |' % (r[0], r[1], r[2].replace('|','/'), r[3] or '**missed**', r[4]))
